@@ -105,12 +105,16 @@ pub open spec fn object_at(file: Seq<u8>, abs: int, decoder: Option<Decoder>, fl
 }
 // "member `index` of object stream `stream_id`" (ObjectStream::get_object_slice is under contract in unit objstm)
 pub uninterp spec fn member_of(stream_id: ObjNr, index: int, flags: ParseFlags) -> Result<Primitive>;
+pub open spec fn header_id_at(file: Seq<u8>, abs: int) -> ObjNr { header_id_of(file.subrange(abs, file.len() as int), abs) }
 
+// the object number N of the `N G obj` header standing at `off`
+pub uninterp spec fn header_id_of(buf: Seq<u8>, off: int) -> ObjNr;
 // parser/parse_object.rs:15 (abstract callee)
 #[verifier::external_body]
 pub fn parse_indirect_object(lexer: &mut Lexer, r: &impl Resolve, decoder: Option<&Decoder>, flags: ParseFlags) -> (res: Result<(PlainRef, Primitive)>)
     ensures match object_of(old(lexer).buf@, old(lexer).off as int, deref_opt(decoder), flags) {
-        Ok(p) => res matches Ok((_, q)) && q == p,
+        // the PlainRef returned is the `N G` of the header read (units/parser_obj: parse_indirect_object/value_indirect)
+        Ok(p) => res matches Ok((h, q)) && q == p && h.id == header_id_of(old(lexer).buf@, old(lexer).off as int),
         Err(_) => res is Err }
 { unimplemented!() }
 
